@@ -121,14 +121,24 @@ class C09(Property):
                     tq = rnd.randint(lo, t) if rnd.random() < 0.8 else t
                 last[c] = tq
                 events.append(["pull", c, tq])
-        return dict(nodes=nodes, cons=cons, events=events)
+        return dict(nodes=nodes, cons=cons, events=events, memory=rnd.choice([None, None, None, 0, 16, 40]), masked=rnd.random() < 0.3)
 
     def run(self, spec):
         install_invariant()
         out = Outcome()
         out.sample = dict(nodes=spec["nodes"], cons=spec["cons"], n_events=len(spec["events"]), first_events=spec["events"][:12])
-        info = fm.Info(time=slots.T0, grid=fm.NoGrid(), units="")
+        masked = bool(spec.get("masked"))
+        if masked:
+            # 1-D payload [id, id+0.5] with the second element masked: history entries are masked arrays
+            info = fm.Info(time=slots.T0, grid=fm.NoGrid(data_shape=(2,)), units="", mask=np.array([False, True]))
+        else:
+            info = fm.Info(time=slots.T0, grid=fm.NoGrid(), units="")
         o = fm.Output(name="out", info=info)
+        if spec.get("memory") is not None:
+            import os
+
+            os.makedirs("spill-c09", exist_ok=True)
+            out.count("cases_with_memory_limit")
         ads = []
         for nd in spec["nodes"]:
             a = fm.adapters.DelayFixed(slots.timedelta(seconds=nd["d"])) if nd["kind"] == "dfix" else mk_adapter(nd["kind"])
@@ -139,6 +149,9 @@ class C09(Property):
             inp = fm.Input(name=f"in{k}", info=info.copy_with())
             (o if c["parent"] < 0 else ads[c["parent"]]) >> inp
             inputs.append(inp)
+        if spec.get("memory") is not None:
+            for slot in [o] + ads:
+                slot.memory_limit, slot.memory_location = spec["memory"], "spill-c09"
         for inp in inputs:
             inp.ping()
         for inp in inputs:
@@ -179,7 +192,7 @@ class C09(Property):
             if ev[0] == "push":
                 t = ev[1]
                 k = len(hist)
-                o.push_data(float(k), slots.t(t))
+                o.push_data(np.array([float(k), float(k) + 0.5]) if masked else float(k), slots.t(t))
                 hist.push(t, F(k))
                 out.count("publications")
                 for c in range(ncons):
@@ -237,6 +250,8 @@ class C09(Property):
             if ts != hist.t[len(hist.t) - len(ts):]:
                 out.viol("history_not_suffix", f"retained times {ts[:5]}.. are not the newest publications", spec=spec)
                 return out
+        for slot in ads + [o]:
+            slot.finalize()
         out.count("evictions", evictions)
         out.count("invariant_evaluations", _INV["evals"] - before)
         out.count("max_retained_len", 0)
